@@ -181,6 +181,8 @@ def __setitem__(self, indx, arg):
         arg_values = np.moveaxis(arg._values_, after, before)
         if np.shape(arg._mask_):
             arg_mask = np.moveaxis(arg._mask_, after, before)
+        else:
+            arg_mask = arg._mask_
     else:
         arg_values = arg._values_
         arg_mask = arg._mask_
